@@ -4,8 +4,8 @@ import CosetProofs.Ties.NarrowingSites
 namespace Coset.Props.C15
 
 /-! ### ties to the source text (regenerated on every run, compared in the kernel with the transcribed tree) -/
-/-- the integer conversion sites of the source (`try_into`, `try_from`, `as`, `from`/`into`) are exactly those the model was transcribed from. -/
-theorem tie_narrowing_sites : Coset.Gen.narrowingSites = Coset.Pinned.narrowingSites := Coset.Ties.narrowing_sites
+/-- the source has no lossy or checked integer conversion (`as`, `try_into`, `try_from`) beyond those of the tree the model was transcribed from. -/
+theorem tie_narrowing_sites : Coset.Ties.sitesCovered (Coset.Ties.lossy Coset.Gen.narrowingSites) (Coset.Ties.lossy Coset.Pinned.narrowingSites) = true := Coset.Ties.narrowing_sites
 
 #print axioms tie_narrowing_sites
 
